@@ -142,3 +142,18 @@ package kv
 //@   assert_before "err = stream.Send(" op.Version == dig.Version && op.Leaseholder == dig.Leaseholder && op.Variant == dig.Variant
 //@   modifies nothing
 //@   loop 0 modifies nothing
+
+//@ # ---- start-up recovery, requesting side: "an applied operation is never replaced by an older
+//@ # one" - whatever a peer streams, it is written (value and digest) only if it supersedes what the
+//@ # recovery transaction sees for that key: the stored state, what an earlier peer's transaction
+//@ # committed, and what this peer sent before
+//@ trusted func loadHighWater(ctx context.Context, cfg Config) (highWater version.Counter, err error)
+//@   modifies nothing
+//@ func runSingleNodeRecovery(ctx context.Context, cfg Config, node node.Node) (err error)
+//@   pragma opaque_func_values
+//@   # `count` only feeds a log line
+//@   overflow off
+//@   atcall apply !SpecHasDigest(tx, op.Key) || gt(vlOp(op), vlDig(SpecDigestOf(tx, op.Key)))
+//@   modifies SpecDig
+//@   loop 0 modifies SpecDig
+//@   loop 1 modifies SpecDig
